@@ -32,6 +32,8 @@ import numpy as np
 import yaml
 from yaml.reader import ReaderError
 import inspect
+import pickle
+import sys
 import types
 
 from holopy.core.holopy_object import SerializableMetaclass, YAMLLOADERS
@@ -136,11 +138,26 @@ yaml.add_multi_representer(
 # numpy ufuncs can no longer be pickled as of numpy 1.20
 # we still want to yamlize them, especially for TransforedPrior
 def numpy_ufunc_representer(dumper, data):
-    return dumper.represent_scalar('!ufunc', data.__name__)
+    name = data.__name__
+    if getattr(np, name, None) is not data:
+        # a ufunc that lives elsewhere (e.g. scipy.special.expit) is saved
+        # with its module. Prefer the public package to a private submodule.
+        module = pickle.whichmodule(data, name)
+        while getattr(sys.modules.get(module.rpartition('.')[0]), name,
+                      None) is data:
+            module = module.rpartition('.')[0]
+        name = "{0}.{1}".format(module, name)
+    return dumper.represent_scalar('!ufunc', name)
 
 
 def numpy_ufunc_constructor(loader, node):
-    return np.core._ufunc_reconstruct('numpy', node.value)
+    module, _, name = node.value.rpartition('.')
+    ufunc = np.core._ufunc_reconstruct(module or 'numpy', name)
+    if not isinstance(ufunc, np.ufunc):
+        raise yaml.constructor.ConstructorError(
+            None, None, "{} is not a ufunc".format(node.value),
+            node.start_mark)
+    return ufunc
 
 
 yaml.add_representer(np.ufunc, numpy_ufunc_representer)
